@@ -1,11 +1,145 @@
-(** C05 -- factorisation preserves the grammar's meaning and never widens a rule. *)
-From Coq Require Import List Arith Bool.
+(** C05 -- factorisation preserves the grammar's meaning and never widens a rule
+    (fggs/factorize.py: factorize_rule / factorize_hrg / factorize_fgg).
+    Only property theorems live here, each closed by [exact] and followed by Print Assumptions.
+    Model: Model/Factorize.v.  [valid_td] is the notion of a valid tree decomposition of C10
+    (Proofs/TreeDec_tdok.v); [ftd_wfb] says that the recorded adjacency lists are symmetric and
+    duplicate-free; [wf_rule]: node ids distinct, attachments and externals are nodes. *)
+From Coq Require Import List Arith Bool Permutation.
 Import ListNotations.
-Require Import Fggs.Model.Conj Fggs.Model.TreeDec Fggs.Model.Factorize Fggs.Proofs.Fz_fresh.
+Require Import Fggs.Model.Conj Fggs.Model.TreeDec Fggs.Proofs.TreeDec_tdok Fggs.Model.Factorize
+               Fggs.Proofs.Fz_fresh Fggs.Proofs.Fz_rooted Fggs.Proofs.Fz_struct Fggs.Proofs.Fz_main
+               Fggs.Proofs.Fz_bridge Fggs.Proofs.Fz_final Fggs.Proofs.Fz_examples.
 
+(** * C05_edges_once
+    For EVERY rule, EVERY valid tree decomposition of its primal graph (whatever method produced
+    it), EVERY iteration order of the bags, of the adjacency sets and of the [bag & parent] sets,
+    and every initial label set: if the model of factorize_rule returns [rs] then [rs] ends with
+    a rule for the original left-hand side and externals; every original edge occurs exactly
+    once, unchanged (same id, label and attachment), in the new rules, and the only other edges
+    are one edge lhs(c)(ext(c)) per new rule c; every new rule's node set is a bag (hence a
+    duplicate-free subset of the original nodes, never more nodes than the original); the bags
+    cover the node set; the fresh left-hand sides are nonterminals with pairwise different names
+    outside the label set (one rule each) and exactly one use each. *)
+Theorem C05_edges_once :
+  forall r t ords labels rs ls,
+    wf_rule r -> ftd_wfb t = true -> valid_td (primal r) (td_of_ftd t) ->
+    factorize_rule_model r labels t ords = Ok (rs, ls) ->
+    exists front last,
+      rs = front ++ [last] /\ fr_lhs last = fr_lhs r /\ fr_ext last = fr_ext r
+      /\ Permutation (flat_map fr_edges rs) (fr_edges r ++ map use_edge front)
+      /\ (forall c, In c rs ->
+            (exists j, j < length t /\ fr_ids c = bag_of t j)
+            /\ NoDup (fr_ids c) /\ incl (fr_ids c) (fr_ids r)
+            /\ fr_nodes c = map (fun v => (v, nlabel (fr_nodes r) v)) (fr_ids c)
+            /\ length (fr_nodes c) <= length (fr_nodes r))
+      /\ (forall v, In v (fr_ids r) <-> exists c, In c rs /\ In v (fr_ids c))
+      /\ (forall c, In c front ->
+            el_term (fr_lhs c) = false /\ el_type (fr_lhs c) = map (nlabel (fr_nodes r)) (fr_ext c)
+            /\ ~ In (el_name (fr_lhs c)) (map el_name (init_labels r labels)))
+      /\ NoDup (map (fun c => el_name (fr_lhs c)) front)
+      /\ (forall c, In c front -> count_label (fr_lhs c) rs = 1)
+      /\ Permutation ls (map fr_lhs front ++ init_labels r labels).
+Proof. exact edges_once_final. Qed.
+Print Assumptions C05_edges_once.
+
+(** hypotheses satisfiable by a non-trivial value: the 4-node path with the decompositions that
+    min_fill / quickbb and acb return for it; the model returns 3 resp. 4 rules *)
+Example C05_edges_once_example :
+  wf_rule path4 /\ ftd_wfb td_mf = true /\ valid_td (primal path4) (td_of_ftd td_mf)
+  /\ exists rs ls, factorize_rule_model path4 [] td_mf ords_mf = Ok (rs, ls) /\ length rs = 3.
+Proof. exact path4_hyps. Qed.
+
+(** the two halves of the bridge from C10's notion of validity: in a tree the recursion of
+    [visit] visits every bag exactly once, for every adjacency order ... *)
+Theorem C05_visit_visits_every_bag_once :
+  forall ns es, tree_on ns es -> forall adj, adj_ok adj ns es ->
+    forall root, In root ns -> exists T, rooted_a adj root None T /\ Permutation (rt_indices T) ns.
+Proof. exact tree_rooting. Qed.
+Print Assumptions C05_visit_visits_every_bag_once.
+
+(** ... and a valid decomposition rooted where [find_root] says satisfies the rooted form of
+    validity (call tree of [visit], running intersection along it) *)
+Theorem C05_valid_td_rooted :
+  forall r t, ftd_wfb t = true -> valid_td (primal r) (td_of_ftd t) ->
+    forall root, NoDup (fr_ids r) -> atts_in_ids r -> incl (fr_ext r) (fr_ids r) ->
+      find_root (fr_ext r) t 0 = Some root -> exists T, rooted_valid r t root T.
+Proof. exact valid_rooted. Qed.
+Print Assumptions C05_valid_td_rooted.
+
+(** the clique lemma behind "every edge is covered": pairwise co-bagged vertices share a bag *)
+Theorem C05_clique_in_a_bag :
+  forall t T, rip t T -> NoDup (rt_indices T) -> forall S,
+    (forall x, In x S -> occurs t x T) ->
+    (forall x y, In x S -> In y S -> x <> y ->
+                 exists j, In j (rt_indices T) /\ In x (bag_of t j) /\ In y (bag_of t j)) ->
+    exists j, In j (rt_indices T) /\ incl S (bag_of t j).
+Proof. exact rip_clique. Qed.
+Print Assumptions C05_clique_in_a_bag.
+
+(** the fuel-based model of [visit] is the structural pass over the tree of calls *)
+Theorem C05_visit_is_structural :
+  forall r t ords fuel i parent T st,
+    root_td fuel t i parent = Some T -> visit fuel r t ords i parent st = visit_rt r t ords T parent st.
+Proof. exact visit_eq. Qed.
+Print Assumptions C05_visit_is_structural.
+
+(** * C05_fresh *)
 Theorem C05_fresh_head :
   forall r t ords i p labels labels' lhs ext,
     visit_head r t ords i (Some p) labels = Ok (labels', lhs, ext) ->
     ~ In (el_name lhs) (map el_name labels).
 Proof. exact visit_head_fresh. Qed.
 Print Assumptions C05_fresh_head.
+
+(** F22: called directly, factorize_rule protects only the NONTERMINAL labels of the rule: a
+    fresh name can be the name of one of its terminal labels (ValueError, or a silent clash) *)
+Theorem C05_fresh_refuted :
+  exists r t ords, td_ok (primal r) (td_of_ftd t) = true /\ factorize_rule_model r [] t ords = Err ValueErr.
+Proof. exact fresh_refuted. Qed.
+Print Assumptions C05_fresh_refuted.
+Theorem C05_fresh_refuted_silent :
+  exists r t ords rs ls, td_ok (primal r) (td_of_ftd t) = true /\ factorize_rule_model r [] t ords = Ok (rs, ls)
+    /\ exists c e, In c rs /\ In e (fr_edges r) /\ el_name (fr_lhs c) = el_name (fe_lab e).
+Proof. exact fresh_refuted_silent. Qed.
+Print Assumptions C05_fresh_refuted_silent.
+(** positive, under the guard that the names of the rule's terminal labels are in [labels]
+    (always so inside factorize_hrg): no collision with any label of the rule or of [labels] *)
+Theorem C05_fresh :
+  forall r ords nm labels idx,
+    terms_covered r labels -> names_ok r ords nm (init_labels r labels) idx ->
+    forall j, In j idx ->
+      ~ In (el_name (nm j)) (map el_name labels)
+      /\ el_name (nm j) <> el_name (fr_lhs r)
+      /\ forall e, In e (fr_edges r) -> el_name (nm j) <> el_name (fe_lab e).
+Proof. exact fresh_names_ok. Qed.
+Print Assumptions C05_fresh.
+
+(** * C05_method_honoured: refuted for factorize_fgg as coded (F7) *)
+Theorem C05_method_honoured_refuted :
+  exists g orc m,
+    (forall k, map (fun ro => Some (fst ro)) (orc k)
+               = map (fun c => option_map canon_ftd (tree_decomposition k (primal c))) (fh_all_rules (ff_hrg g)))
+    /\ ~ method_honoured m g orc.
+Proof. exact method_honoured_refuted. Qed.
+Print Assumptions C05_method_honoured_refuted.
+Theorem C05_method_honoured_min_fill : forall g orc, method_honoured 0 g orc.
+Proof. exact method_honoured_min_fill. Qed.
+Print Assumptions C05_method_honoured_min_fill.
+Theorem C05_method_honoured_hrg : forall m g orc, factorize_hrg_model m g orc = factorize_hrg_with g (orc m).
+Proof. exact hrg_method_honoured. Qed.
+Print Assumptions C05_method_honoured_hrg.
+
+(** * converse, for detection *)
+Theorem C05_invalid_td_loses_edge_example :
+  td_ok (primal path4) (td_of_ftd td_bad) = false
+  /\ exists rs ls, factorize_rule_model path4 [] td_bad [[]; []] = Ok (rs, ls)
+       /\ ~ In (ED 2 lt [1; 2]) (flat_map fr_edges rs)
+       /\ inline_ok path4 rs = false.
+Proof. exact invalid_td_loses_edge_example. Qed.
+Print Assumptions C05_invalid_td_loses_edge_example.
+
+(** * F20: factorize_fgg keeps the factors but rebuilds the label tables from the rules *)
+Theorem C05_labels_preserved_refuted :
+  exists g orc f, factors_bound g /\ factorize_fgg_model 0 g orc = Ok f /\ ~ factors_bound f.
+Proof. exact labels_preserved_refuted. Qed.
+Print Assumptions C05_labels_preserved_refuted.
